@@ -2,7 +2,7 @@
 # seed2_confirm.sh <pid> : confirm both round-2 seeds of a property in scratch worktrees
 PID="$1"
 for x in a b; do
-  D=/tmp/seed2-$PID-out/$x
+  D=/tmp/seed${ROUND:-2}-$PID-out/$x
   [ -d "$D" ] || continue
   echo "=== $PID/$x $(/verif/tools/confirm_seed.sh "$D" 2>&1 | grep RESULT)"
 done
